@@ -26,6 +26,10 @@
    recorded lemma {l0, ...} makes l0 true (sat_core::record enqueues it), which is mirrored on `alpha` inside
    the operation because later watchers look at it.
 
+   Public API beyond new_lt .. new_eq: new_var(const lin&) (after fix 8c419ea: basic variables of the argument are replaced
+   by their rows, the row may have a known term) and set_lb / set_ub (event ESetBound: assert_lower / assert_upper with the
+   TRUE literal as reason, as executor.cpp calls them). `set` is set_lb followed by set_ub. listen / equates are not modelled.
+
    Ghost fields. `trail` (the bound atoms asserted so far, per decision level) and `snaps` (the bounds at each
    push) are specification state: no output and no other field depends on them. *)
 From Coq Require Import QArith List Bool Arith PeanoNat.
